@@ -14,6 +14,16 @@ CHECKS = {
          "The real collector is driven through hook H1 over every heap shape (<=4 nodes) and every operation sequence (27 operations, depth 8/10) and compared with a reachability model after every transition; collections are placed after every evaluator step / at every single step / at every pair of steps of every corpus program (hook H2) and outcomes, traces and step counts must equal the collection-free run; after dropping results one collection must return to the exact baseline object count.",
          "Trusted: the test node type of hook H1 and the schedule hook H2 add no logic to the collector; heaps above the node bound are covered only through evaluator runs.",
          "DESIGN.md §4 C03"),
+ "C09": ("model_checking",
+         "exhaustive single-fault injection at every node of every corpus program; the specification's static rules (model) against load_source",
+         "For every corpus program and every node position each of 24 fault / look-alike expressions is substituted; the static checker written from the specification predicts accept/reject and the admissible error kinds, the implementation must agree in both directions; accepted programs are evaluated and must not panic on an unbound name.",
+         "Trusted: syntax::static_check as the specification's static semantics; programs above the node bound are not covered.",
+         "DESIGN.md §4 C09"),
+ "C14": ("model_checking",
+         "exhaustive enumeration of byte strings and literal forms against a reference lexer (model); tiling and trivia-filter invariants on every input",
+         "Every byte string up to length 4/5 over a 54-symbol alphabet, every operator cluster, every short number text, every Unicode scalar value in every literal form, every \\uXXXX, all invalid UTF-8 sequences over 19 border bytes and all small text blocks are lexed by a reference lexer written from the grammar and by the implementation; kinds, values and spans must agree, spans must tile the input, and lex_to_eof(false) must equal lex_to_eof(true) minus trivia.",
+         "Trusted: ref_lex as the lexical grammar; only rejection (not the error kind) is compared for invalid inputs.",
+         "DESIGN.md §4 C14"),
 }
 def main():
     hooks = subprocess.run(["git","-C","/repo","log","--format=%H %s"],capture_output=True,text=True).stdout.splitlines()
